@@ -55,6 +55,11 @@ type wResp struct {
 	Body string  `json:"body"`
 }
 
+type wSib struct {
+	DID  string   `json:"did"`
+	Hist []string `json:"hist"`
+}
+
 type wOp struct {
 	Op      string   `json:"op"`
 	Methods []string `json:"methods,omitempty"` // node: config didmethods
@@ -71,6 +76,7 @@ type wOp struct {
 	KeyOK   bool     `json:"keyok,omitempty"` // did:jwk / did:key: the library decoded the identifier into a supported public key
 	Resps   []wResp  `json:"resps,omitempty"`
 	Again   string   `json:"again,omitempty"` // outcome of a second, identical resolution
+	Sib     []wSib   `json:"sib,omitempty"`   // did:web: the DIDs in this node's store that differ from the requested one only in letter case, with their histories
 	Tag     string   `json:"tag,omitempty"`
 }
 
@@ -283,6 +289,26 @@ func wExec(t *testing.T, node **wNode, op *wOp) (line string) {
 		if !n.faulty {
 			n.wApplyHistory(id, op.Hist)
 		}
+		if id.Method == "web" {
+			if !n.faulty { // a replayed op brings the case-variant siblings of its DID along
+				for _, sb := range op.Sib {
+					if sid, err := did.ParseDID(wunhx(sb.DID)); err == nil {
+						n.wApplyHistory(*sid, sb.Hist)
+					}
+				}
+			}
+			op.Sib = nil
+			var keys []string
+			for k := range n.seen {
+				if k != id.String() && strings.EqualFold(k, id.String()) {
+					keys = append(keys, k)
+				}
+			}
+			sort.Strings(keys)
+			for _, k := range keys {
+				op.Sib = append(op.Sib, wSib{DID: whx(k), Hist: n.seen[k]})
+			}
+		}
 		if op.Fault && !n.faulty {
 			// storage fault: from now on every SQL statement of this node fails ("sql: database is closed")
 			n.sqlDB.Close()
@@ -433,6 +459,13 @@ func wGenerate(seed int64, thorough bool) []wOp {
 				}
 				op.M, op.ID, op.Tag = whx("web"), whx(id), "web"
 				op.Hist = hists[r.Intn(len(hists))]
+				if r.Intn(4) == 0 {
+					// wave 8: DIDs that differ only in letter case (host or path segment) are different DIDs with their own
+					// histories (different lengths, one deactivated, one not managed at all)
+					id = []string{"c%d.example:iam:tenant", "c%d.example:iam:Tenant", "c%d.example:IAM:tenant", "C%d.example:iam:tenant", "c%d.example:iam:TENANT"}[r.Intn(5)]
+					id = fmt.Sprintf(id, r.Intn(3))
+					op.ID, op.Tag = whx(id), "web-case-variant"
+				}
 				if r.Intn(4) == 0 {
 					op.Hist = [][]string{{"active+"}, {"deactivated+"}, {"active", "deactivated+"}, {"active+", "deactivated+"}, {"active", "active+"}, {"deactivated", "active+"}, {"active+", "deactivated"}}[r.Intn(7)]
 					op.Tag = "web-clock-skew"
